@@ -35,7 +35,11 @@ def plan(req, idx):
 
 def no_keepalive(url):
     """Does the response plan for this URL forbid reuse of the connection?"""
-    path = "/" + url.split("://", 1)[1].partition("/")[2]
+    if isinstance(url, dict):
+        t = url.get("target", "/")
+        path = t if isinstance(t, str) else bytes(t).decode("latin1")
+    else:
+        path = "/" + url.split("://", 1)[1].partition("/")[2]
     return path.startswith(("/close", "/http10", "/eof", "/upgrade"))
 
 
@@ -166,6 +170,12 @@ add(
 add(Scenario("h1-origins-port", dict(max_connections=3), [c("r1", "http://a.test:8001/1"), c("r2", "http://a.test:8002/2"), c("r3", "http://a.test:8001/3"), c("r4", "http://a.test/4"), c("r5", "http://a.test:80/5")]))
 add(Scenario("h1-origins-scheme", dict(max_connections=3), [c("r1", "http://a.test:8443/1"), c("r2", "https://a.test:8443/2"), c("r3", "http://a.test:8443/3"), c("r4", "wss://a.test:8443/4"), c("r5", "ws://a.test:8443/5")]))
 add(Scenario("h1-origins-host", dict(max_connections=2), [c("r1", "https://a.test/1"), c("r2", "https://b.test/2"), c("r3", "https://a.test:443/3"), c("r4", "https://A.TEST/4")]))
+# a host that is NOT ASCII can only be named with explicit URL components; the connection made for it can never be
+# established (the host cannot be turned into text for the network back end): the request fails, and whatever the pool
+# did to make room for that connection (evicting an idle one) must still be carried through
+NA = {"scheme": "http", "host": [0x62, 0xFC, 0x63, 0x68, 0x65, 0x72, 0x2E, 0x74, 0x65, 0x73, 0x74], "port": 80, "target": "/n"}
+add(Scenario("h1-max1-A-nonascii-A", dict(max_connections=1), [c("r1", A + "/"), c("r2", NA), c("r3", A + "/3")]))
+add(Scenario("h1-max2-AB-nonascii-A", dict(max_connections=2, max_keepalive_connections=1), [c("r1", A + "/"), c("r2", B + "/"), c("r3", NA), c("r4", A + "/4")]))
 add(Scenario("h1-max1-early", dict(max_connections=1), [c("r1", A + "/early1", method="POST", headers=[(b"Content-Length", b"40")], content=[b"0123456789"] * 4), c("r2", A + "/2"), c("r3", A + "/3")]))
 add(Scenario("h1-max1-mixed-ends", dict(max_connections=1), [c("r1", A + "/big1", consume=("chunks", 2)), c("r2", A + "/close2"), c("r3", A + "/3"), c("r4", A + "/http10")]))
 add(Scenario("h1-max2-AAAB-mixed", dict(max_connections=2), [c("r1", A + "/1"), c("r2", A + "/big2", consume="none"), c("r3", A + "/3"), c("r4", B + "/4")]))
